@@ -566,6 +566,77 @@ def r05_10(chk, P):
     return 1
 
 
+
+def r05_11(chk, P, rule='R05.11'):
+    chk.rule(rule, 'the search for a packet size stays inside the PACKETBLOBS encodings of the block: in vorbis_bitrate_addblock every '
+             'subscript of vorbis_block_internal.packetblob is within the array (K4 intervals through the raise / lower loops and '
+             'their break tests), given that the two places where the index is taken from the floating average (the result of '
+             'rint() stored into the index local) deliver a value in [0,PACKETBLOBS) -- that premise is a property of the float '
+             'arithmetic (avgfloat moves towards an index by at most the distance to it) and is listed as an assumption.  A '
+             'hard minimum on silence, or a hard maximum on noise, drives the index to either end of the array')
+    import absint
+    from absint import V, Hooks
+    F = P.need('vorbis_bitrate_addblock')
+    ext = P.field('vorbis_block_internal', 'packetblob').get('extent')
+    chk.require(ext, 'vorbis_block_internal.packetblob is no longer a fixed-extent array')
+    n = ext[0]
+    subs = []
+    idxvars = set()
+    for e in F.nodes('sub'):
+        nd = F.ex[e]
+        b = F.ex[F.strip_casts(nd['c'][0])]
+        if b['k'] == 'member' and b.get('record') == 'vorbis_block_internal' and b['field'] == 'packetblob':
+            subs.append(e)
+            ix = F.ex[F.strip_casts(nd['c'][1])]
+            if ix['k'] == 'ref' and ix['decl'].get('kind') == 'var':
+                idxvars.add(ix['decl']['id'])
+    chk.require(subs, 'vorbis_bitrate_addblock no longer indexes packetblob')
+
+    def from_rint(e):
+        for q in F.walk(e):
+            qn = F.ex[q]
+            if qn['k'] == 'call' and qn['callee'].get('d') in ('rint', 'rintf', 'lrint', 'floor', 'ceil'):
+                return True
+        return False
+    premises = []
+
+    class H(Hooks):
+        def on_store(self, A, env, e, key, val):
+            nd = A.ex[e]
+            rhs = None
+            if nd['k'] == 'assign' and nd['op'] == '=':
+                rhs = nd['c'][1]
+            elif nd['k'] == 'decl':
+                for v in nd['vars']:
+                    if f"v{v.get('id')}" == key and v.get('init'):
+                        rhs = v['init']
+            if rhs is not None and key in {f'v{i}' for i in idxvars} and from_rint(rhs):
+                if e not in premises:
+                    premises.append(e)
+                return V(0, n - 1)
+            return None
+    A = absint.Analyzer(P, F, hooks=H())
+    seen = {}
+
+    def obs(A_, env, e, v):
+        if e in subs:
+            seen[e] = absint.join(seen.get(e), A_.peek(env, A_.ex[e]['c'][1]))
+    A.observers.append(obs)
+    A.run()
+    for i, e in enumerate(sorted(subs, key=lambda x: F.ex[x].get('loc') or [0, 0])):
+        v = seen.get(e)
+        if v is None:
+            continue
+        ok = v.lo >= 0 and v.hi < n
+        chk.ob(rule, F.name, f'packetblob-subscript#{i}', ok, F.where(e),
+               f'index {v} of {n}' if ok else
+               f'`{F.s(e)}`: index {v} can leave the array of {n} encodings -- a pointer read from beyond the block is handed to the bit packer')
+    for i, e in enumerate(sorted(premises, key=lambda x: F.loc(x))):
+        chk.assumed(rule, F.name, f'index-from-average-in-range#{i}', F.where(e),
+                    f'`{F.s(e)[:70]}`: rint() of the floating average lies in [0,{n}): the average starts at {n}//2 and each update moves it '
+                    'towards an index of the array by at most the distance to that index (float arithmetic, not decided here)')
+    return len(subs)
+
 def run(chk, P):
     r05_8(chk, P)
     chk.floor('R05.8', 2)
@@ -578,6 +649,8 @@ def run(chk, P):
     chk.floor('R05.5', 6)
     r05_6(chk, P)
     chk.floor('R05.6', 2)
+    r05_11(chk, P)
+    chk.floor('R05.11', 6)
     r05_7(chk, P)
     chk.floor('R05.7', 1)
     r05_9(chk, P)
